@@ -1,8 +1,1238 @@
-//! C03 — not implemented yet
-use vcore::{Args, Check};
+//! C03 — certificate chain verification accepts only chains anchored in the genesis key.
+//!
+//! Honest chains (constant / rotating signer worlds) are served by an untrusted provider that applies a generated list
+//! of tamper operations (with its own adversary signer world and genesis key). The implementation
+//! (`MithrilCertificateVerifier::verify_certificate_chain`, and the client's `CertificateClient::verify_chain` without
+//! and with the verifier cache) is compared with `ref_check`, a literal transcription of the statement over the set of
+//! certificates the provider ever served. Violation ⇔ the implementation accepts ∧ the reference finds a failing clause.
+
+#[path = "certs.rs"]
+mod certs;
+
+use std::collections::{BTreeMap, BTreeSet};
+use std::sync::{Arc, Mutex};
+
+use async_trait::async_trait;
+use certs::*;
+use mithril_client::certificate_client::{
+    CertificateAggregatorRequest, CertificateClient, CertificateVerifierCache, MemoryCertificateVerifierCache,
+    MithrilCertificateVerifier as ClientCertificateVerifier,
+};
+use mithril_client::feedback::FeedbackSender;
+use mithril_client::{MithrilCertificate, MithrilCertificateListItem, MithrilResult};
+use mithril_common::certificate_chain::{CertificateRetriever, CertificateRetrieverError, CertificateVerifier, MithrilCertificateVerifier};
+use mithril_common::crypto_helper::{GenesisVerifier, ProtocolAggregateVerificationKeyForConcatenation};
+use mithril_common::entities::{Certificate, CertificateSignature, Epoch, ProtocolMessagePartKey, StakeDistributionParty};
+use proptest::prelude::*;
+use serde::{Deserialize, Serialize};
+use vcore::{Args, Check, Report, catch, mix, pick_index};
+
+pub const KEY_FOLLOWING_EPOCH: &str = "accepted:link-to-following-epoch";
+pub const KEY_CACHE_POISON: &str = "client-cache:accepted:link-not-verified";
+
+// ------------------------------------------------------------------------------------------------------------------
+// tamper operations
+// ------------------------------------------------------------------------------------------------------------------
+
+#[derive(Clone, Debug, Serialize, Deserialize, PartialEq)]
+pub enum WorldSel {
+    Adversary,
+    /// the adversary's keys under the protocol parameters of the honest world of the certificate's epoch
+    AdversarySameParams,
+    /// honest world of the certificate's epoch offset + d
+    Offset(i8),
+    Pool(u16),
+}
+
+#[derive(Clone, Debug, Serialize, Deserialize)]
+pub enum FieldAlter {
+    Hash { other: Option<u16>, seed: u64 },
+    PreviousHashRandom(u64),
+    EpochAdd(i8),
+    EpochSet(u64),
+    Network(String),
+    Version(String),
+    ParamK(i8),
+    ParamM(i8),
+    /// ± n steps at the fixed-point precision, or (0) the other usual value
+    ParamPhi(i8),
+    InitiatedAt(i64),
+    SealedAt(i64),
+    SignersDrop,
+    SignersAdd(u64),
+    SignerStake(u16, i8),
+    PartEpochAdd(i8),
+    PartNextAvk(WorldSel),
+    PartNextParams(WorldSel),
+    PartDigest(u64),
+    PartRemove(u8),
+    PartAdd(u8, u64),
+    SignedMessageRandom(u64),
+    Avk(WorldSel),
+    EntityVariant(u8),
+    EntityNumber(u64),
+    /// the signature of another certificate
+    SignatureOf(u16),
+}
+
+#[derive(Clone, Debug, Serialize, Deserialize, PartialEq)]
+pub enum ParentFix {
+    None,
+    /// the parent is served with the commitment the fork needs; nothing else of it is touched (stored hash kept)
+    Commit,
+    /// … and its signed message is recomputed (stored hash kept)
+    CommitResync,
+    /// … and it is re-hashed, the fork pointing to the new hash
+    CommitResyncRehash,
+}
+
+#[derive(Clone, Debug, Serialize, Deserialize, PartialEq)]
+pub enum Rel {
+    SameEpoch,
+    Previous,
+    Next,
+    Older,
+    Genesis,
+    Own,
+    Raw,
+}
+
+#[derive(Clone, Debug, Serialize, Deserialize)]
+pub enum Op {
+    Alter { at: u16, field: FieldAlter, resync_msg: bool, rehash: bool, repoint: bool },
+    /// re-sign the signed message by another signer set
+    Resign { at: u16, by: WorldSel, adopt_key: bool, commit_next: bool, rehash: bool, repoint: bool },
+    /// the adversary re-signs certificate `at` and all its descendants consistently (keys, parameters, commitments,
+    /// hashes, links); the only thing it cannot produce is the honest parent's commitment
+    AdvFork { at: u16, same_params: bool, parent: ParentFix },
+    Retarget { at: u16, rel: Rel, to: u16, rehash: bool, repoint: bool },
+    Drop { at: u16 },
+    /// serve certificate `cert` for the hash of certificate `key_of`
+    ServeFor { key_of: u16, cert: u16 },
+    /// a second certificate for the same signed message (differs in unsigned metadata), one child re-pointed to it
+    Duplicate { at: u16, child: u16, delta: i64 },
+    SelfLoop { at: u16, mode: u8 },
+    GenesisOtherKey { rehash: bool, repoint: bool },
+    StandardAsGenesis { at: u16, adversary_key: bool, rehash: bool, repoint: bool },
+    GenesisAsStandard { by: WorldSel, rehash: bool, repoint: bool },
+}
+
+#[derive(Clone, Debug, Serialize, Deserialize)]
+pub struct AdvSpec {
+    pub world: WorldSpec,
+    pub genesis_seed: u64,
+}
+
+#[derive(Clone, Debug, Serialize, Deserialize)]
+pub enum HeadSel {
+    Last,
+    Touched,
+    Raw(u16),
+}
+
+#[derive(Clone, Debug, Serialize, Deserialize)]
+pub struct Case {
+    pub chain: ChainSpec,
+    pub adv: AdvSpec,
+    pub ops: Vec<Op>,
+    pub head: HeadSel,
+}
+
+#[derive(Clone, Debug, Serialize, Deserialize)]
+pub struct Step {
+    pub ops: Vec<Op>,
+    pub head: HeadSel,
+}
+
+#[derive(Clone, Debug, Serialize, Deserialize)]
+pub struct HistCase {
+    pub chain: ChainSpec,
+    pub adv: AdvSpec,
+    pub steps: Vec<Step>,
+}
+
+fn op_name(o: &Op) -> String {
+    let s = format!("{o:?}");
+    s.split([' ', '{', '(']).next().unwrap_or("").to_string()
+}
+
+fn field_name(f: &FieldAlter) -> String {
+    let s = format!("{f:?}");
+    s.split([' ', '{', '(']).next().unwrap_or("").to_string()
+}
+
+// ------------------------------------------------------------------------------------------------------------------
+// the provider's store
+// ------------------------------------------------------------------------------------------------------------------
+
+#[derive(Clone)]
+struct Store {
+    certs: Vec<Certificate>,
+    /// epoch offset of each slot in the honest chain
+    offset: Vec<usize>,
+    /// hash key -> slot
+    served: BTreeMap<String, usize>,
+    touched: BTreeSet<usize>,
+    notes: Vec<String>,
+}
+
+struct Ctx<'a> {
+    built: &'a Built,
+    adv: Arc<World>,
+    adv_spec: &'a AdvSpec,
+}
+
+impl Ctx<'_> {
+    fn world(&self, sel: &WorldSel, offset: usize) -> Option<Arc<World>> {
+        match sel {
+            WorldSel::Adversary => Some(self.adv.clone()),
+            WorldSel::AdversarySameParams => {
+                let honest = &self.built.worlds[self.built.spec.world_index(offset)];
+                world_cached(&WorldSpec { seed: self.adv_spec.world.seed, stakes: self.adv_spec.world.stakes.clone(), params: honest.spec.params.clone() })
+            }
+            WorldSel::Offset(d) => {
+                let o = (offset as i64 + *d as i64).max(0) as usize;
+                Some(self.built.worlds[self.built.spec.world_index(o)].clone())
+            }
+            WorldSel::Pool(i) => Some(self.built.worlds[*i as usize % self.built.worlds.len()].clone()),
+        }
+    }
+}
+
+impl Store {
+    fn new(built: &Built) -> Store {
+        Store {
+            certs: built.certs.clone(),
+            offset: built.pos.iter().map(|p| p.0).collect(),
+            served: built.certs.iter().enumerate().map(|(i, c)| (c.hash.clone(), i)).collect(),
+            touched: BTreeSet::new(),
+            notes: vec![],
+        }
+    }
+
+    fn slot(&self, raw: u16) -> usize {
+        pick_index(raw, self.certs.len())
+    }
+
+    fn standard_slot(&self, raw: u16) -> Option<usize> {
+        let s: Vec<usize> = (0..self.certs.len()).filter(|i| !self.certs[*i].is_genesis()).collect();
+        if s.is_empty() { None } else { Some(s[pick_index(raw, s.len())]) }
+    }
+
+    fn children(&self, i: usize) -> Vec<usize> {
+        let h = &self.certs[i].hash;
+        (0..self.certs.len()).filter(|j| *j != i && &self.certs[*j].previous_hash == h).collect()
+    }
+
+    /// descendants of slot i through the current links (excluding i), parents before children
+    fn descendants(&self, i: usize) -> Vec<usize> {
+        let mut out = vec![];
+        let mut queue = vec![i];
+        let mut seen = BTreeSet::from([i]);
+        while let Some(x) = queue.pop() {
+            for c in self.children(x) {
+                if seen.insert(c) {
+                    out.push(c);
+                    queue.push(c);
+                }
+            }
+        }
+        out
+    }
+
+    /// give slot i its recomputed hash; serve it under the new hash; optionally re-point (and re-hash) its descendants
+    /// (every slot at most once: tampered links may form cycles)
+    fn rehash_slot(&mut self, i: usize, repoint: bool) {
+        let mut done: BTreeSet<usize> = BTreeSet::new();
+        let mut queue = vec![i];
+        while let Some(x) = queue.pop() {
+            if !done.insert(x) {
+                continue;
+            }
+            let old = self.certs[x].hash.clone();
+            // children are looked up BEFORE the hash moves
+            let children = if repoint { self.children(x) } else { vec![] };
+            rehash(&mut self.certs[x]);
+            let new = self.certs[x].hash.clone();
+            if new == old {
+                continue;
+            }
+            if self.served.get(&old) == Some(&x) {
+                self.served.remove(&old);
+            }
+            self.served.insert(new.clone(), x);
+            for c in children {
+                if self.certs[c].previous_hash == old && !done.contains(&c) {
+                    self.certs[c].previous_hash = new.clone();
+                    self.touched.insert(c);
+                    queue.push(c);
+                }
+            }
+        }
+    }
+
+    fn finish(&mut self, i: usize, rehash: bool, repoint: bool) {
+        self.touched.insert(i);
+        if rehash {
+            self.rehash_slot(i, repoint);
+        }
+    }
+}
+
+fn set_commitment(c: &mut Certificate, w: &World) {
+    c.protocol_message.set_message_part(ProtocolMessagePartKey::NextAggregateVerificationKey, w.avk_hex.clone());
+    c.protocol_message.set_message_part(ProtocolMessagePartKey::NextProtocolParameters, w.spec.params.entity().compute_hash());
+}
+
+fn adopt_key(c: &mut Certificate, w: &World) {
+    c.aggregate_verification_key = w.avk_key();
+    c.metadata.protocol_parameters = w.spec.params.entity();
+    c.metadata.signers = w.parties.clone();
+}
+
+fn resign(c: &mut Certificate, w: &World) -> bool {
+    let entity = c.signed_entity_type();
+    match w.sign(c.signed_message.as_bytes()) {
+        Some(sig) => {
+            c.signature = CertificateSignature::MultiSignature(entity, sig);
+            true
+        }
+        None => false,
+    }
+}
+
+fn apply_op(st: &mut Store, op: &Op, cx: &Ctx) {
+    match op {
+        Op::Alter { at, field, resync_msg, rehash, repoint } => {
+            let i = st.slot(*at);
+            let off = st.offset[i];
+            let other_sig = if let FieldAlter::SignatureOf(o) = field { Some(st.certs[st.slot(*o)].signature.clone()) } else { None };
+            let other_hash = if let FieldAlter::Hash { other: Some(o), .. } = field { Some(st.certs[st.slot(*o)].hash.clone()) } else { None };
+            let c = &mut st.certs[i];
+            match field {
+                FieldAlter::Hash { seed, .. } => c.hash = other_hash.unwrap_or_else(|| hex_digest(*seed)),
+                FieldAlter::PreviousHashRandom(s) => c.previous_hash = hex_digest(*s),
+                FieldAlter::EpochAdd(d) => c.epoch = Epoch(c.epoch.0.wrapping_add(*d as i64 as u64)),
+                FieldAlter::EpochSet(e) => c.epoch = Epoch(*e),
+                FieldAlter::Network(s) => c.metadata.network = s.clone(),
+                FieldAlter::Version(s) => c.metadata.protocol_version = s.clone(),
+                FieldAlter::ParamK(d) => c.metadata.protocol_parameters.k = c.metadata.protocol_parameters.k.wrapping_add(*d as i64 as u64),
+                FieldAlter::ParamM(d) => c.metadata.protocol_parameters.m = c.metadata.protocol_parameters.m.wrapping_add(*d as i64 as u64),
+                FieldAlter::ParamPhi(d) => {
+                    let p = c.metadata.protocol_parameters.phi_f;
+                    c.metadata.protocol_parameters.phi_f = if *d == 0 {
+                        if p == 1.0 { 0.9 } else { 1.0 }
+                    } else {
+                        let f = phi_fixed(p).unwrap_or(1 << 24) as i64;
+                        ((f + *d as i64).clamp(1 << 23, 1 << 24)) as f64 / 16_777_216.0
+                    };
+                }
+                FieldAlter::InitiatedAt(d) => c.metadata.initiated_at = ts(c.metadata.initiated_at.timestamp_nanos_opt().unwrap_or(0).wrapping_add(*d)),
+                FieldAlter::SealedAt(d) => c.metadata.sealed_at = ts(c.metadata.sealed_at.timestamp_nanos_opt().unwrap_or(0).wrapping_add(*d)),
+                FieldAlter::SignersDrop => {
+                    c.metadata.signers.pop();
+                }
+                FieldAlter::SignersAdd(s) => c.metadata.signers.push(StakeDistributionParty { party_id: format!("pool{s:x}"), stake: 1 + *s % 1000 }),
+                FieldAlter::SignerStake(j, d) => {
+                    if !c.metadata.signers.is_empty() {
+                        let j = pick_index(*j, c.metadata.signers.len());
+                        c.metadata.signers[j].stake = c.metadata.signers[j].stake.wrapping_add(*d as i64 as u64);
+                    }
+                }
+                FieldAlter::PartEpochAdd(d) => {
+                    let e = c.epoch.0.wrapping_add(*d as i64 as u64);
+                    c.protocol_message.set_message_part(ProtocolMessagePartKey::CurrentEpoch, e.to_string());
+                }
+                FieldAlter::PartNextAvk(w) => {
+                    if let Some(w) = cx.world(w, off) {
+                        c.protocol_message.set_message_part(ProtocolMessagePartKey::NextAggregateVerificationKey, w.avk_hex.clone());
+                    }
+                }
+                FieldAlter::PartNextParams(w) => {
+                    if let Some(w) = cx.world(w, off) {
+                        c.protocol_message.set_message_part(ProtocolMessagePartKey::NextProtocolParameters, w.spec.params.entity().compute_hash());
+                    }
+                }
+                FieldAlter::PartDigest(s) => {
+                    c.protocol_message.set_message_part(ProtocolMessagePartKey::SnapshotDigest, hex_digest(*s));
+                }
+                FieldAlter::PartRemove(k) => {
+                    let keys: Vec<_> = c.protocol_message.message_parts.keys().copied().collect();
+                    if !keys.is_empty() {
+                        c.protocol_message.message_parts.remove(&keys[*k as usize % keys.len()]);
+                    }
+                }
+                FieldAlter::PartAdd(k, s) => {
+                    c.protocol_message.set_message_part(ALL_KEYS[*k as usize % ALL_KEYS.len()], hex_digest(*s));
+                }
+                FieldAlter::SignedMessageRandom(s) => c.signed_message = hex_digest(*s),
+                FieldAlter::Avk(w) => {
+                    if let Some(w) = cx.world(w, off) {
+                        c.aggregate_verification_key = w.avk_key();
+                    }
+                }
+                FieldAlter::EntityVariant(v) => {
+                    if let CertificateSignature::MultiSignature(e, s) = &c.signature {
+                        c.signature = CertificateSignature::MultiSignature(EntitySpec::of(e).with_variant(*v, 0).entity(), s.clone());
+                    }
+                }
+                FieldAlter::EntityNumber(n) => {
+                    if let CertificateSignature::MultiSignature(e, s) = &c.signature {
+                        let mut nums = EntitySpec::of(e).numbers();
+                        nums[0] = nums[0].wrapping_add(1 + *n % 3);
+                        nums.resize(3, 0);
+                        let v = ["MSD", "CSD", "CDb", "CTx", "CBT"].iter().position(|x| *x == EntitySpec::of(e).name()).unwrap() as u8;
+                        c.signature = CertificateSignature::MultiSignature(EntitySpec::Cbt(nums[0], nums[1], nums[2]).with_variant(v, 0).entity(), s.clone());
+                    }
+                }
+                FieldAlter::SignatureOf(_) => c.signature = other_sig.unwrap(),
+            }
+            if *resync_msg {
+                c.signed_message = c.protocol_message.compute_hash();
+            }
+            st.finish(i, *rehash, *repoint);
+        }
+        Op::Resign { at, by, adopt_key: adopt, commit_next, rehash, repoint } => {
+            let Some(i) = st.standard_slot(*at) else { return };
+            let Some(w) = cx.world(by, st.offset[i]) else { return };
+            let c = &mut st.certs[i];
+            if *commit_next {
+                set_commitment(c, &w);
+                c.signed_message = c.protocol_message.compute_hash();
+            }
+            if *adopt {
+                adopt_key(c, &w);
+            }
+            if !resign(c, &w) {
+                st.notes.push("resign-skipped".into());
+            }
+            st.finish(i, *rehash, *repoint);
+        }
+        Op::AdvFork { at, same_params, parent } => {
+            let Some(i) = st.standard_slot(*at) else { return };
+            let sel = if *same_params { WorldSel::AdversarySameParams } else { WorldSel::Adversary };
+            let Some(w) = cx.world(&sel, st.offset[i]) else { return };
+            // the honest parent, served with what the fork needs
+            if *parent != ParentFix::None {
+                if let Some(&p) = st.served.get(&st.certs[i].previous_hash) {
+                    let same_epoch = st.certs[p].epoch == st.certs[i].epoch;
+                    let pc = &mut st.certs[p];
+                    if same_epoch {
+                        pc.aggregate_verification_key = w.avk_key();
+                        pc.metadata.protocol_parameters = w.spec.params.entity();
+                    } else {
+                        set_commitment(pc, &w);
+                    }
+                    if *parent != ParentFix::Commit && !same_epoch {
+                        pc.signed_message = pc.protocol_message.compute_hash();
+                    }
+                    st.touched.insert(p);
+                    if *parent == ParentFix::CommitResyncRehash {
+                        st.rehash_slot(p, true);
+                    }
+                }
+            }
+            let mut order = vec![i];
+            order.extend(st.descendants(i));
+            for x in order {
+                if st.certs[x].is_genesis() {
+                    continue;
+                }
+                let c = &mut st.certs[x];
+                set_commitment(c, &w);
+                c.signed_message = c.protocol_message.compute_hash();
+                adopt_key(c, &w);
+                if !resign(c, &w) {
+                    st.notes.push("resign-skipped".into());
+                }
+                st.touched.insert(x);
+                // children are re-pointed one level at a time; they are re-signed (and re-hashed) later in this loop
+                let old = st.certs[x].hash.clone();
+                rehash(&mut st.certs[x]);
+                let new = st.certs[x].hash.clone();
+                if st.served.get(&old) == Some(&x) {
+                    st.served.remove(&old);
+                }
+                st.served.insert(new.clone(), x);
+                for ch in 0..st.certs.len() {
+                    if ch != x && st.certs[ch].previous_hash == old {
+                        st.certs[ch].previous_hash = new.clone();
+                    }
+                }
+            }
+        }
+        Op::Retarget { at, rel, to, rehash, repoint } => {
+            let Some(i) = st.standard_slot(*at) else { return };
+            let off = st.offset[i];
+            let cands: Vec<usize> = (0..st.certs.len())
+                .filter(|j| match rel {
+                    Rel::SameEpoch => *j != i && st.offset[*j] == off,
+                    Rel::Previous => st.offset[*j] + 1 == off,
+                    Rel::Next => st.offset[*j] == off + 1,
+                    Rel::Older => st.offset[*j] + 1 < off,
+                    Rel::Genesis => st.certs[*j].is_genesis(),
+                    Rel::Own => *j == i,
+                    Rel::Raw => true,
+                })
+                .collect();
+            if cands.is_empty() {
+                st.notes.push("retarget-no-candidate".into());
+                return;
+            }
+            let j = cands[pick_index(*to, cands.len())];
+            st.certs[i].previous_hash = st.certs[j].hash.clone();
+            st.notes.push(format!(
+                "retarget:{}",
+                if j == i {
+                    "self"
+                } else if st.certs[j].is_genesis() && st.offset[j] + 1 != off && st.offset[j] != off {
+                    "genesis"
+                } else if st.offset[j] == off {
+                    "same-epoch"
+                } else if st.offset[j] + 1 == off {
+                    "previous-epoch"
+                } else if st.offset[j] == off + 1 {
+                    "next-epoch"
+                } else if st.offset[j] < off {
+                    "older"
+                } else {
+                    "later"
+                }
+            ));
+            st.finish(i, *rehash, *repoint);
+        }
+        Op::Drop { at } => {
+            let i = st.slot(*at);
+            st.served.retain(|_, v| *v != i);
+            st.touched.insert(i);
+        }
+        Op::ServeFor { key_of, cert } => {
+            let (k, c) = (st.slot(*key_of), st.slot(*cert));
+            let key = st.certs[k].hash.clone();
+            st.served.insert(key, c);
+            st.touched.insert(c);
+            st.touched.insert(k);
+        }
+        Op::Duplicate { at, child, delta } => {
+            let i = st.slot(*at);
+            let mut d = st.certs[i].clone();
+            d.metadata.sealed_at = ts(d.metadata.sealed_at.timestamp_nanos_opt().unwrap_or(0).wrapping_add(1 + delta.unsigned_abs() as i64 % 1_000_000));
+            rehash(&mut d);
+            let children = st.children(i);
+            let slot = st.certs.len();
+            st.served.insert(d.hash.clone(), slot);
+            let new_hash = d.hash.clone();
+            st.certs.push(d);
+            st.offset.push(st.offset[i]);
+            st.touched.insert(slot);
+            if !children.is_empty() {
+                let c = children[pick_index(*child, children.len())];
+                st.certs[c].previous_hash = new_hash;
+                st.finish(c, true, true);
+            }
+        }
+        Op::SelfLoop { at, mode } => {
+            let i = st.slot(*at);
+            match mode % 3 {
+                0 => st.certs[i].previous_hash = st.certs[i].hash.clone(),
+                1 => {
+                    let old = st.certs[i].hash.clone();
+                    st.certs[i].hash = st.certs[i].previous_hash.clone();
+                    let h = st.certs[i].hash.clone();
+                    if st.served.get(&old) == Some(&i) {
+                        st.served.remove(&old);
+                    }
+                    st.served.insert(h, i);
+                }
+                _ => {
+                    st.certs[i].previous_hash = st.certs[i].hash.clone();
+                    st.rehash_slot(i, true);
+                }
+            }
+            st.touched.insert(i);
+        }
+        Op::GenesisOtherKey { rehash, repoint } => {
+            let Some(g) = (0..st.certs.len()).find(|i| st.certs[*i].is_genesis()) else { return };
+            let signer = genesis_signer(cx.adv_spec.genesis_seed);
+            let sig = signer.ed25519.sign(st.certs[g].signed_message.as_bytes());
+            st.certs[g].signature = CertificateSignature::GenesisSignature(sig);
+            st.finish(g, *rehash, *repoint);
+        }
+        Op::StandardAsGenesis { at, adversary_key, rehash, repoint } => {
+            let Some(i) = st.standard_slot(*at) else { return };
+            let sig = if *adversary_key {
+                genesis_signer(cx.adv_spec.genesis_seed).ed25519.sign(st.certs[i].signed_message.as_bytes())
+            } else {
+                // replay the honest genesis signature (valid for another message)
+                match st.certs.iter().find_map(|c| if let CertificateSignature::GenesisSignature(s) = &c.signature { Some(*s) } else { None }) {
+                    Some(s) => s,
+                    None => return,
+                }
+            };
+            st.certs[i].signature = CertificateSignature::GenesisSignature(sig);
+            st.finish(i, *rehash, *repoint);
+        }
+        Op::GenesisAsStandard { by, rehash, repoint } => {
+            let Some(g) = (0..st.certs.len()).find(|i| st.certs[*i].is_genesis()) else { return };
+            let Some(w) = cx.world(by, st.offset[g]) else { return };
+            let entity = EntitySpec::Msd(st.certs[g].epoch.0).entity();
+            if let Some(sig) = w.sign(st.certs[g].signed_message.as_bytes()) {
+                st.certs[g].signature = CertificateSignature::MultiSignature(entity, sig);
+                if *by != WorldSel::Offset(1) {
+                    adopt_key(&mut st.certs[g], &w);
+                }
+            }
+            st.finish(g, *rehash, *repoint);
+        }
+    }
+}
+
+// ------------------------------------------------------------------------------------------------------------------
+// the reference: a literal transcription of the statement
+// ------------------------------------------------------------------------------------------------------------------
+
+/// certificates that exist for the verifier: everything the provider serves (or served) whose stored hash matches its
+/// content, keyed by that hash
+fn universe_add(universe: &mut BTreeMap<String, Certificate>, c: &Certificate) {
+    if let Ok(h) = c.try_compute_hash() {
+        if h == c.hash {
+            universe.entry(h).or_insert_with(|| c.clone());
+        }
+    }
+}
+
+fn ref_params_of(c: &Certificate) -> (u64, u64, Option<u32>) {
+    let p = &c.metadata.protocol_parameters;
+    (p.k, p.m, phi_fixed(p.phi_f))
+}
+
+/// the failing clauses on the walk from `head` (empty = valid)
+fn ref_check(head: &Certificate, universe: &BTreeMap<String, Certificate>, gv: &GenesisVerifier) -> Vec<&'static str> {
+    let mut fails: Vec<&'static str> = vec![];
+    let mut seen: BTreeSet<String> = BTreeSet::new();
+    let mut cur = head.clone();
+    for _ in 0..universe.len() + 2 {
+        let true_hash = cur.try_compute_hash().unwrap_or_default();
+        if cur.hash != true_hash {
+            fails.push("hash-mismatch");
+        }
+        if !seen.insert(true_hash) {
+            fails.push("loop");
+            return fails;
+        }
+        if cur.protocol_message.compute_hash() != cur.signed_message {
+            fails.push("signed-message-mismatch");
+        }
+        if cur.protocol_message.get_message_part(&ProtocolMessagePartKey::CurrentEpoch) != Some(&cur.epoch.0.to_string()) {
+            fails.push("epoch-not-in-signed-message");
+        }
+        match &cur.signature {
+            CertificateSignature::GenesisSignature(sig) => {
+                if gv.to_ed25519_verification_key().verify_strict(cur.signed_message.as_bytes(), sig).is_err() {
+                    fails.push("genesis-signature-invalid");
+                }
+                return fails;
+            }
+            CertificateSignature::MultiSignature(_, sig) => {
+                let p = &cur.metadata.protocol_parameters;
+                let params = mithril_stm::Parameters { m: p.m, k: p.k, phi_f: p.phi_f };
+                let ok = catch(|| sig.verify(cur.signed_message.as_bytes(), &cur.create_aggregate_verification_key(), &params, None, None).is_ok()).unwrap_or(false);
+                if !ok {
+                    fails.push("multi-signature-invalid");
+                }
+                let Some(prev) = universe.get(&cur.previous_hash) else {
+                    fails.push("previous-certificate-missing");
+                    return fails;
+                };
+                let avk = cur.aggregate_verification_key.to_json_hex().unwrap_or_default();
+                if prev.epoch == cur.epoch {
+                    if prev.aggregate_verification_key.to_json_hex().unwrap_or_default() != avk {
+                        fails.push("link-same-epoch-other-avk");
+                    }
+                    if ref_params_of(prev) != ref_params_of(&cur) {
+                        fails.push("link-same-epoch-other-parameters");
+                    }
+                } else if prev.epoch.0.checked_add(1) == Some(cur.epoch.0) {
+                    let committed = prev
+                        .protocol_message
+                        .get_message_part(&ProtocolMessagePartKey::NextAggregateVerificationKey)
+                        .and_then(|s| ProtocolAggregateVerificationKeyForConcatenation::try_from(s.as_str()).ok())
+                        .and_then(|k| k.to_json_hex().ok());
+                    if committed.as_deref() != Some(avk.as_str()) {
+                        fails.push("link-avk-not-committed");
+                    }
+                    let p = &cur.metadata.protocol_parameters;
+                    let expected = ref_params_hash(p.k, p.m, p.phi_f);
+                    if expected.is_none() || prev.protocol_message.get_message_part(&ProtocolMessagePartKey::NextProtocolParameters) != expected.as_ref() {
+                        fails.push("link-parameters-not-committed");
+                    }
+                } else if cur.epoch.0.checked_add(1) == Some(prev.epoch.0) {
+                    fails.push("link-to-following-epoch");
+                } else {
+                    fails.push("link-epoch-gap");
+                }
+                cur = prev.clone();
+            }
+        }
+    }
+    fails.push("walk-too-long");
+    fails
+}
+
+fn violation_key(fails: &[&'static str]) -> String {
+    // the narrowest clause: the following-epoch class only when it is the ONLY failing clause
+    let first_other = fails.iter().find(|f| **f != "link-to-following-epoch");
+    format!("accepted:{}", first_other.unwrap_or(&"link-to-following-epoch"))
+}
+
+// ------------------------------------------------------------------------------------------------------------------
+// the implementations
+// ------------------------------------------------------------------------------------------------------------------
+
+struct StoreRetriever {
+    served: BTreeMap<String, Certificate>,
+    log: Mutex<(usize, Vec<String>)>,
+    budget: usize,
+}
+
+#[async_trait]
+impl CertificateRetriever for StoreRetriever {
+    async fn get_certificate_details(&self, hash: &str) -> Result<Certificate, CertificateRetrieverError> {
+        let mut g = self.log.lock().unwrap();
+        g.0 += 1;
+        if g.0 > self.budget {
+            return Err(CertificateRetrieverError(anyhow::anyhow!("provider call budget exhausted (loop)")));
+        }
+        g.1.push(hash.to_string());
+        self.served.get(hash).cloned().ok_or_else(|| CertificateRetrieverError(anyhow::anyhow!("no certificate {hash}")))
+    }
+}
+
+struct StoreRequester {
+    served: Mutex<BTreeMap<String, MithrilCertificate>>,
+    log: Mutex<(usize, Vec<String>)>,
+    budget: usize,
+}
+
+#[async_trait]
+impl CertificateAggregatorRequest for StoreRequester {
+    async fn list_latest(&self) -> MithrilResult<Vec<MithrilCertificateListItem>> {
+        Ok(vec![])
+    }
+    async fn get_by_hash(&self, hash: &str) -> MithrilResult<Option<MithrilCertificate>> {
+        let mut g = self.log.lock().unwrap();
+        g.0 += 1;
+        if g.0 > self.budget {
+            return Err(anyhow::anyhow!("provider call budget exhausted (loop)"));
+        }
+        g.1.push(hash.to_string());
+        Ok(self.served.lock().unwrap().get(hash).cloned())
+    }
+}
+
+fn logger() -> slog::Logger {
+    slog::Logger::root(slog::Discard, slog::o!())
+}
+
+fn served_certs(st: &Store) -> BTreeMap<String, Certificate> {
+    st.served.iter().map(|(k, i)| (k.clone(), st.certs[*i].clone())).collect()
+}
+
+/// (accepted?, error text, hashes asked from the provider)
+fn run_common(head: &Certificate, st: &Store, gv: &GenesisVerifier) -> (bool, String, Vec<String>) {
+    let retriever = Arc::new(StoreRetriever { served: served_certs(st), log: Mutex::new((0, vec![])), budget: 4 * st.certs.len() + 16 });
+    let verifier = MithrilCertificateVerifier::new(logger(), retriever.clone(), Arc::new(gv.clone()));
+    let rt = tokio::runtime::Builder::new_current_thread().enable_all().build().expect("runtime");
+    let r = catch(|| rt.block_on(verifier.verify_certificate_chain(head.clone())));
+    let asked = retriever.log.lock().unwrap().1.clone();
+    match r {
+        Ok(Ok(())) => (true, String::new(), asked),
+        Ok(Err(e)) => (false, format!("{e:#}"), asked),
+        Err(p) => (false, format!("panic: {p}"), asked),
+    }
+}
+
+fn to_messages(st: &Store) -> BTreeMap<String, MithrilCertificate> {
+    st.served.iter().filter_map(|(k, i)| MithrilCertificate::try_from(st.certs[*i].clone()).ok().map(|m| (k.clone(), m))).collect()
+}
+
+fn error_class(e: &str) -> String {
+    let e = e.rsplit(": ").next().unwrap_or(e);
+    // drop hashes (labels must stay a small set)
+    let mut out = String::new();
+    let mut run = String::new();
+    for ch in e.chars().chain([' ']) {
+        if ch.is_ascii_hexdigit() {
+            run.push(ch);
+        } else {
+            if run.len() >= 16 {
+                out.push_str("<hash>");
+            } else {
+                out.push_str(&run);
+            }
+            run.clear();
+            out.push(ch);
+        }
+    }
+    out.trim().chars().take(48).collect()
+}
+
+/// report the first violation whose key is not an open known finding (so that a known class never masks another one),
+/// otherwise the first
+fn report_pending(rep: &mut Report, pending: Vec<(String, String)>, known: &[String]) {
+    let pick = pending.iter().find(|(k, _)| !known.contains(k)).or(pending.first());
+    if let Some((k, w)) = pick {
+        rep.violation(k.clone(), w.clone());
+    }
+}
+
+// ------------------------------------------------------------------------------------------------------------------
+// case functions
+// ------------------------------------------------------------------------------------------------------------------
+
+fn pick_head(sel: &HeadSel, st: &Store, n_original: usize) -> usize {
+    match sel {
+        HeadSel::Last => n_original - 1,
+        HeadSel::Raw(r) => pick_index(*r, st.certs.len()),
+        HeadSel::Touched => {
+            // the deepest touched certificate (most descendants re-pointed below it are visited from there)
+            let leafs: Vec<usize> = st.touched.iter().copied().filter(|i| st.children(*i).is_empty()).collect();
+            leafs.last().copied().or(st.touched.iter().next_back().copied()).unwrap_or(n_original - 1)
+        }
+    }
+}
+
+fn label_ops(rep: &mut Report, ops: &[Op], constant: bool) {
+    for o in ops {
+        rep.label(format!("op:{}", op_name(o)));
+        match o {
+            Op::Alter { field, rehash, .. } => {
+                rep.label(format!("alter:{}:{}", field_name(field), if *rehash { "rehash" } else { "keep-hash" }));
+            }
+            Op::Resign { by, rehash, .. } => {
+                if matches!(by, WorldSel::Adversary | WorldSel::AdversarySameParams) && *rehash {
+                    rep.label("class:adversary-resign+rehash");
+                }
+            }
+            Op::AdvFork { parent, .. } => {
+                rep.label("class:adversary-resign+rehash");
+                rep.label(format!("advfork:parent-{parent:?}"));
+            }
+            _ => {}
+        }
+    }
+    rep.label(if constant { "world:constant" } else { "world:rotating" });
+}
+
+fn case_fn(c: &Case, known: &[String]) -> Report {
+    let mut pending: Vec<(String, String)> = vec![];
+    let mut rep = Report::new();
+    let Some(built) = chain_cached(&c.chain) else {
+        rep.discard("chain does not build");
+        return rep;
+    };
+    let Some(adv) = world_cached(&c.adv.world) else {
+        rep.discard("adversary world does not build");
+        return rep;
+    };
+    let cx = Ctx { built: &built, adv, adv_spec: &c.adv };
+    let mut st = Store::new(&built);
+    for op in &c.ops {
+        apply_op(&mut st, op, &cx);
+    }
+    let n = built.certs.len();
+    let head_slot = pick_head(&c.head, &st, n);
+    let head = st.certs[head_slot].clone();
+    let gv = &built.genesis_verifier;
+
+    label_ops(&mut rep, &c.ops, c.chain.constant);
+    for note in &st.notes {
+        rep.label(format!("note:{note}"));
+    }
+    let retarget_next = st.notes.iter().any(|x| x == "retarget:next-epoch");
+    if retarget_next && c.chain.constant {
+        rep.label("class:retarget-next-epoch:constant-world");
+    }
+
+    // reference
+    let mut universe = BTreeMap::new();
+    for (_, i) in &st.served {
+        universe_add(&mut universe, &st.certs[*i]);
+    }
+    universe_add(&mut universe, &head);
+    let fails = ref_check(&head, &universe, gv);
+    rep.label(if fails.is_empty() { "ref:valid" } else { "ref:invalid" });
+    for f in &fails {
+        rep.label(format!("ref-clause:{f}"));
+    }
+
+    // implementation 1: the common verifier
+    let (acc, err, asked) = run_common(&head, &st, gv);
+    rep.label(if acc { "common:accepts" } else { "common:rejects" });
+    if !acc {
+        rep.label(format!("common-error:{}", error_class(&err)));
+    }
+    let visited: BTreeSet<usize> = asked.iter().filter_map(|h| st.served.get(h).copied()).chain([head_slot]).collect();
+    let visited_touched = st.touched.iter().any(|t| visited.contains(t));
+    if c.ops.is_empty() {
+        rep.label("untampered");
+        if !acc {
+            rep.label("honest-rejected");
+        }
+    }
+    if visited_touched {
+        let boundary = st.touched.iter().filter(|t| visited.contains(t)).map(|t| if st.children(*t).iter().any(|ch| st.offset[*ch] != st.offset[*t]) { "boundary" } else { "inner" }).next().unwrap_or("inner");
+        let ops: Vec<String> = c
+            .ops
+            .iter()
+            .map(|o| match o {
+                Op::Alter { field, rehash, resync_msg, .. } => format!("Alter:{}:{}{}", field_name(field), *rehash as u8, *resync_msg as u8),
+                Op::Resign { by, rehash, adopt_key, commit_next, .. } => format!("Resign:{by:?}:{}{}{}", *rehash as u8, *adopt_key as u8, *commit_next as u8),
+                Op::AdvFork { parent, same_params, .. } => format!("AdvFork:{parent:?}:{}", *same_params as u8),
+                Op::Retarget { rel, rehash, .. } => format!("Retarget:{rel:?}:{}", *rehash as u8),
+                other => op_name(other),
+            })
+            .collect();
+        rep.nontrivial(format!("{ops:?}|{boundary}|{}|{}|{}", c.chain.constant, fails.first().unwrap_or(&"valid"), acc));
+    }
+    if acc && !fails.is_empty() {
+        pending.push((
+            violation_key(&fails),
+            format!("MithrilCertificateVerifier::verify_certificate_chain accepted head {} (epoch {}) although {:?}; ops={:?}", head.hash, head.epoch.0, fails, c.ops),
+        ));
+    }
+    if !acc && fails.is_empty() {
+        rep.label(format!("converse:valid-but-rejected:{}", error_class(&err)));
+    }
+
+    // implementation 2: the client, without cache (certificates travel as messages)
+    if let Some(key) = st.served.iter().find(|(_, i)| **i == head_slot).map(|(k, _)| k.clone()) {
+        let (acc2, err2, _) = run_client_once(&st, &key, gv);
+        rep.label(if acc2 { "client:accepts" } else { "client:rejects" });
+        if acc2 && !fails.is_empty() {
+            pending.push((violation_key(&fails), format!("CertificateClient::verify_chain (no cache) accepted head {} (epoch {}) although {:?}; ops={:?}", head.hash, head.epoch.0, fails, c.ops)));
+        }
+        if acc2 != acc {
+            rep.label(format!("client-differs-from-common:{}", error_class(&err2)));
+        }
+    }
+    report_pending(&mut rep, pending, known);
+    rep
+}
+
+fn run_client_once(st: &Store, key: &str, gv: &GenesisVerifier) -> (bool, String, Vec<String>) {
+    let requester = Arc::new(StoreRequester { served: Mutex::new(to_messages(st)), log: Mutex::new((0, vec![])), budget: 4 * st.certs.len() + 16 });
+    let r = catch(|| {
+        let verifier = ClientCertificateVerifier::new(requester.clone(), &genesis_vk_hex(gv), FeedbackSender::new(&[]), None, logger())?;
+        let client = CertificateClient::new(requester.clone(), Arc::new(verifier), logger());
+        let rt = tokio::runtime::Builder::new_current_thread().enable_all().build().expect("runtime");
+        rt.block_on(client.verify_chain(key)).map(|_| ())
+    });
+    let asked = requester.log.lock().unwrap().1.clone();
+    match r {
+        Ok(Ok(())) => (true, String::new(), asked),
+        Ok(Err(e)) => (false, format!("{e:#}"), asked),
+        Err(p) => (false, format!("panic: {p}"), asked),
+    }
+}
+
+fn hist_case(c: &HistCase, known: &[String]) -> Report {
+    let mut rep = Report::new();
+    let mut pending: Vec<(String, String)> = vec![];
+    let Some(built) = chain_cached(&c.chain) else {
+        rep.discard("chain does not build");
+        return rep;
+    };
+    let Some(adv) = world_cached(&c.adv.world) else {
+        rep.discard("adversary world does not build");
+        return rep;
+    };
+    let cx = Ctx { built: &built, adv, adv_spec: &c.adv };
+    let gv = &built.genesis_verifier;
+    let n = built.certs.len();
+    let cache = Arc::new(MemoryCertificateVerifierCache::new(chrono::TimeDelta::try_hours(24).expect("delta")));
+    let requester = Arc::new(StoreRequester { served: Mutex::new(BTreeMap::new()), log: Mutex::new((0, vec![])), budget: usize::MAX });
+    let rt = tokio::runtime::Builder::new_current_thread().enable_all().build().expect("runtime");
+    let verifier = match ClientCertificateVerifier::new(requester.clone(), &genesis_vk_hex(gv), FeedbackSender::new(&[]), Some(cache.clone() as Arc<dyn CertificateVerifierCache>), logger()) {
+        Ok(v) => v,
+        Err(e) => {
+            rep.discard(format!("client verifier not constructible: {e}"));
+            return rep;
+        }
+    };
+    let client = CertificateClient::new(requester.clone(), Arc::new(verifier), logger());
+    let mut universe: BTreeMap<String, Certificate> = BTreeMap::new();
+    let mut shape = vec![];
+    rep.label("class:cache-history");
+    rep.label(format!("history-steps:{}", c.steps.len()));
+    for (si, step) in c.steps.iter().enumerate() {
+        let mut st = Store::new(&built);
+        for op in &step.ops {
+            apply_op(&mut st, op, &cx);
+        }
+        let head_slot = pick_head(&step.head, &st, n);
+        let Some(key) = st.served.iter().find(|(_, i)| **i == head_slot).map(|(k, _)| k.clone()) else {
+            rep.label("history:head-not-served");
+            continue;
+        };
+        // what the client will be given for the head: the served message, converted back
+        let messages = to_messages(&st);
+        let Some(head) = messages.get(&key).and_then(|m| Certificate::try_from(m.clone()).ok()) else {
+            continue;
+        };
+        for (_, i) in &st.served {
+            universe_add(&mut universe, &st.certs[*i]);
+        }
+        *requester.served.lock().unwrap() = messages;
+        {
+            let mut g = requester.log.lock().unwrap();
+            g.0 = 0;
+            g.1.clear();
+        }
+        let cached_before = rt.block_on(cache.len());
+        let r = catch(|| rt.block_on(client.verify_chain(&key)).map(|_| ()));
+        let asked = requester.log.lock().unwrap().1.len();
+        let (acc, err) = match r {
+            Ok(Ok(())) => (true, String::new()),
+            Ok(Err(e)) => (false, format!("{e:#}")),
+            Err(p) => (false, format!("panic: {p}")),
+        };
+        let fails = ref_check(&head, &universe, gv);
+        // the walk was shortened by the cache iff fewer certificates were fetched than the reference walk is long
+        let cached_after = rt.block_on(cache.len());
+        if acc && cached_before > 0 {
+            rep.label("history:accept-with-warm-cache");
+        }
+        if cached_after > cached_before {
+            rep.label("history:cache-grew");
+        }
+        rep.label(format!("history:step{}:{}:{}", si.min(3), if acc { "accepts" } else { "rejects" }, if fails.is_empty() { "ref-valid" } else { "ref-invalid" }));
+        for o in &step.ops {
+            rep.label(format!("op:{}", op_name(o)));
+        }
+        let ops: Vec<String> = step.ops.iter().map(op_name).collect();
+        shape.push(format!("{ops:?}:{}:{}:{}", acc, fails.first().unwrap_or(&"valid"), asked.min(9)));
+        if acc && !fails.is_empty() {
+            // is the acceptance due to the cache? A fresh client without cache on the same provider state decides.
+            let (fresh_accepts, _, _) = run_client_once(&st, &key, gv);
+            let key_v = if fresh_accepts {
+                violation_key(&fails)
+            } else if fails.iter().all(|f| f.starts_with("link-")) {
+                rep.label("history:cache-only-acceptance:link");
+                KEY_CACHE_POISON.to_string()
+            } else {
+                format!("client-cache:{}", violation_key(&fails))
+            };
+            pending.push((
+                key_v,
+                format!(
+                    "step {si}: CertificateClient::verify_chain (verifier cache enabled, {cached_before} cached links; a fresh client without cache {}) accepted head {} (epoch {}) although {:?}; steps={:?}",
+                    if fresh_accepts { "accepts too" } else { "rejects" },
+                    head.hash,
+                    head.epoch.0,
+                    fails,
+                    c.steps
+                ),
+            ));
+        }
+        if !acc && fails.is_empty() {
+            rep.label(format!("converse:valid-but-rejected:{}", error_class(&err)));
+        }
+    }
+    rep.nontrivial(format!("{}|{shape:?}", c.chain.constant));
+    report_pending(&mut rep, pending, known);
+    rep
+}
+
+// ------------------------------------------------------------------------------------------------------------------
+// strategies
+// ------------------------------------------------------------------------------------------------------------------
+
+fn world_sel() -> impl Strategy<Value = WorldSel> {
+    prop_oneof![
+        3 => Just(WorldSel::Adversary),
+        2 => Just(WorldSel::AdversarySameParams),
+        2 => (-1i8..=2).prop_map(WorldSel::Offset),
+        1 => any::<u16>().prop_map(WorldSel::Pool),
+    ]
+}
+
+fn field_alter() -> impl Strategy<Value = FieldAlter> {
+    let small = || prop_oneof![Just(1i8), Just(-1i8), Just(2i8), Just(-2i8), any::<i8>()];
+    prop::strategy::Union::new(vec![
+        (prop::option::of(any::<u16>()), any::<u64>()).prop_map(|(other, seed)| FieldAlter::Hash { other, seed }).boxed(),
+        any::<u64>().prop_map(FieldAlter::PreviousHashRandom).boxed(),
+        small().prop_map(FieldAlter::EpochAdd).boxed(),
+        u64_interesting().prop_map(FieldAlter::EpochSet).boxed(),
+        prop::sample::select(vec!["", "mainnet", "testnet ", "x"]).prop_map(|s| FieldAlter::Network(s.to_string())).boxed(),
+        prop::sample::select(vec!["", "0.1.1", "9.9.9"]).prop_map(|s| FieldAlter::Version(s.to_string())).boxed(),
+        small().prop_map(FieldAlter::ParamK).boxed(),
+        small().prop_map(FieldAlter::ParamM).boxed(),
+        prop_oneof![Just(0i8), Just(1i8), Just(-1i8), any::<i8>()].prop_map(FieldAlter::ParamPhi).boxed(),
+        prop_oneof![Just(1i64), Just(-1i64), any::<i64>()].prop_map(FieldAlter::InitiatedAt).boxed(),
+        prop_oneof![Just(1i64), Just(-1i64), any::<i64>()].prop_map(FieldAlter::SealedAt).boxed(),
+        Just(FieldAlter::SignersDrop).boxed(),
+        any::<u64>().prop_map(FieldAlter::SignersAdd).boxed(),
+        (any::<u16>(), small()).prop_map(|(j, d)| FieldAlter::SignerStake(j, d)).boxed(),
+        small().prop_map(FieldAlter::PartEpochAdd).boxed(),
+        world_sel().prop_map(FieldAlter::PartNextAvk).boxed(),
+        world_sel().prop_map(FieldAlter::PartNextParams).boxed(),
+        any::<u64>().prop_map(FieldAlter::PartDigest).boxed(),
+        any::<u8>().prop_map(FieldAlter::PartRemove).boxed(),
+        (any::<u8>(), any::<u64>()).prop_map(|(k, s)| FieldAlter::PartAdd(k, s)).boxed(),
+        any::<u64>().prop_map(FieldAlter::SignedMessageRandom).boxed(),
+        world_sel().prop_map(FieldAlter::Avk).boxed(),
+        (0u8..5).prop_map(FieldAlter::EntityVariant).boxed(),
+        any::<u64>().prop_map(FieldAlter::EntityNumber).boxed(),
+        any::<u16>().prop_map(FieldAlter::SignatureOf).boxed(),
+    ])
+}
+
+fn parent_fix() -> impl Strategy<Value = ParentFix> {
+    prop_oneof![Just(ParentFix::None), Just(ParentFix::Commit), Just(ParentFix::CommitResync), Just(ParentFix::CommitResyncRehash)]
+}
+
+fn rel() -> impl Strategy<Value = Rel> {
+    prop_oneof![2 => Just(Rel::SameEpoch), 2 => Just(Rel::Previous), 4 => Just(Rel::Next), 2 => Just(Rel::Older), 1 => Just(Rel::Genesis), 1 => Just(Rel::Own), 2 => Just(Rel::Raw)]
+}
+
+fn op_strategy() -> impl Strategy<Value = Op> {
+    let b = || any::<bool>();
+    let mostly = || prop::bool::weighted(0.75);
+    prop_oneof![
+        6 => (any::<u16>(), field_alter(), b(), mostly(), mostly()).prop_map(|(at, field, resync_msg, rehash, repoint)| Op::Alter { at, field, resync_msg, rehash, repoint }),
+        3 => (any::<u16>(), world_sel(), mostly(), b(), mostly(), mostly()).prop_map(|(at, by, adopt_key, commit_next, rehash, repoint)| Op::Resign { at, by, adopt_key, commit_next, rehash, repoint }),
+        3 => (any::<u16>(), b(), parent_fix()).prop_map(|(at, same_params, parent)| Op::AdvFork { at, same_params, parent }),
+        4 => (any::<u16>(), rel(), any::<u16>(), mostly(), mostly()).prop_map(|(at, rel, to, rehash, repoint)| Op::Retarget { at, rel, to, rehash, repoint }),
+        1 => any::<u16>().prop_map(|at| Op::Drop { at }),
+        1 => (any::<u16>(), any::<u16>()).prop_map(|(key_of, cert)| Op::ServeFor { key_of, cert }),
+        1 => (any::<u16>(), any::<u16>(), any::<i64>()).prop_map(|(at, child, delta)| Op::Duplicate { at, child, delta }),
+        1 => (any::<u16>(), 0u8..3).prop_map(|(at, mode)| Op::SelfLoop { at, mode }),
+        1 => (mostly(), mostly()).prop_map(|(rehash, repoint)| Op::GenesisOtherKey { rehash, repoint }),
+        1 => (any::<u16>(), b(), mostly(), mostly()).prop_map(|(at, adversary_key, rehash, repoint)| Op::StandardAsGenesis { at, adversary_key, rehash, repoint }),
+        1 => (world_sel(), mostly(), mostly()).prop_map(|(by, rehash, repoint)| Op::GenesisAsStandard { by, rehash, repoint }),
+    ]
+}
+
+fn adv_strategy() -> impl Strategy<Value = AdvSpec> {
+    (world_strategy(), any::<u64>()).prop_map(|(world, genesis_seed)| AdvSpec { world, genesis_seed })
+}
+
+fn head_strategy() -> impl Strategy<Value = HeadSel> {
+    prop_oneof![2 => Just(HeadSel::Last), 3 => Just(HeadSel::Touched), 1 => any::<u16>().prop_map(HeadSel::Raw)]
+}
+
+fn case_strategy(pool: Vec<ChainSpec>) -> impl Strategy<Value = Case> {
+    (prop::sample::select(pool), adv_strategy(), prop_oneof![1 => Just(vec![]), 8 => prop::collection::vec(op_strategy(), 1..=1), 3 => prop::collection::vec(op_strategy(), 2..=3)], head_strategy())
+        .prop_map(|(chain, adv, ops, head)| Case { chain, adv, ops, head })
+}
+
+fn hist_strategy(pool: Vec<ChainSpec>) -> impl Strategy<Value = HistCase> {
+    let step = || (prop_oneof![2 => Just(vec![]), 3 => prop::collection::vec(op_strategy(), 1..=2)], head_strategy()).prop_map(|(ops, head)| Step { ops, head });
+    // the shapes named in the design: honest first then tampered sharing a suffix, the reverse, and the same fork served
+    // with and without the parent's (unverifiable) commitment
+    let fork_pattern = (any::<u16>(), any::<bool>(), parent_fix(), parent_fix(), any::<bool>(), head_strategy(), head_strategy()).prop_map(|(at, same_params, p1, p2, honest_first, h1, h2)| {
+        let mut steps = vec![];
+        if honest_first {
+            steps.push(Step { ops: vec![], head: HeadSel::Last });
+        }
+        steps.push(Step { ops: vec![Op::AdvFork { at, same_params, parent: p1 }], head: h1 });
+        steps.push(Step { ops: vec![Op::AdvFork { at, same_params, parent: p2 }], head: h2 });
+        steps
+    });
+    (prop::sample::select(pool), adv_strategy(), prop_oneof![2 => prop::collection::vec(step(), 2..=4), 1 => fork_pattern]).prop_map(|(chain, adv, steps)| HistCase { chain, adv, steps })
+}
+
+// ------------------------------------------------------------------------------------------------------------------
+// witnesses
+// ------------------------------------------------------------------------------------------------------------------
+
+fn witness_chain() -> ChainSpec {
+    let plan = |link: u16, same: bool, seed: u64| CertPlan { link, same_epoch_first: same, entity: 2, n1: seed, n2: 0, seed };
+    ChainSpec {
+        genesis_seed: 1,
+        start_epoch: 10,
+        constant: true,
+        worlds: vec![WorldSpec { seed: 11, stakes: vec![100, 200, 300], params: PSpec::new(2, 8, 1.0) }, WorldSpec { seed: 12, stakes: vec![150, 250], params: PSpec::new(2, 8, 1.0) }],
+        // epoch 10: genesis; epoch 11: A, B -> A; epoch 12: C -> A
+        epochs: vec![vec![], vec![plan(0, false, 1), plan(0, true, 2)], vec![plan(0, false, 3)]],
+        network: "testnet".into(),
+    }
+}
+
+fn witness_adv() -> AdvSpec {
+    AdvSpec { world: WorldSpec { seed: 99, stakes: vec![500, 500], params: PSpec::new(2, 8, 1.0) }, genesis_seed: 98 }
+}
+
+/// certificate B of epoch 11 is re-pointed (and re-hashed) to certificate C of epoch 12: accepted?
+fn witness_following_epoch() -> bool {
+    let c = Case { chain: witness_chain(), adv: witness_adv(), ops: vec![Op::Retarget { at: 32768, rel: Rel::Next, to: 0, rehash: true, repoint: true }], head: HeadSel::Touched };
+    let r = case_fn(&c, &[]);
+    matches!(&r.outcome, vcore::Outcome::Violation { key, .. } if key == KEY_FOLLOWING_EPOCH)
+}
+
+/// honest chain verified first (cache warm), then the adversary's fork served together with a parent carrying the
+/// commitment the fork needs (stored hash kept): accepted?
+fn witness_cache_poison() -> bool {
+    let c = HistCase {
+        chain: witness_chain(),
+        adv: witness_adv(),
+        steps: vec![
+            Step { ops: vec![], head: HeadSel::Last },
+            Step { ops: vec![Op::AdvFork { at: 65535, same_params: true, parent: ParentFix::Commit }], head: HeadSel::Touched },
+        ],
+    };
+    let r = hist_case(&c, &[]);
+    matches!(&r.outcome, vcore::Outcome::Violation { key, .. } if key == KEY_CACHE_POISON)
+}
 
 pub fn run(args: &Args) -> i32 {
-    let check = Check::new("C03", "exploration", args);
-    check.inconclusive("check not implemented yet".into());
+    let mut check = Check::new("C03", "exploration", args);
+    check
+        .rule(
+            "honest chain (1-6 epochs, 1-3 certificates per epoch, constant or rotating signer worlds) + 0-3 provider tamper ops (+ an adversary world and key); \
+             non-trivial = at least one tampered certificate is the head or was fetched by the verifier; distinct by (op kinds with field / re-hash / re-sync / signer world, \
+             position at an epoch boundary or not, world mode, first failing reference clause, verdict). History cases: 2-4 verify_chain calls sharing one verifier cache; \
+             distinct by the per-step (ops, verdict, reference clause, provider calls)",
+        )
+        .assume("SHA-256 / certificate hash collision-free (C04); STM aggregate verification and Ed25519 verify_strict are trusted primitives (C01); key codecs trusted (C05)")
+        .assume("the provider cannot sign with honest signer keys or the honest genesis key; it can with its own; certificates are tampered as entities (message-level malformations are C05)")
+        .assume("the reference walks over every certificate the provider served (in any call of a history) whose stored hash matches its content")
+        .require_label("class:adversary-resign+rehash")
+        .require_label("class:retarget-next-epoch:constant-world")
+        .require_label("op:GenesisOtherKey")
+        .require_label("op:StandardAsGenesis")
+        .require_label("op:GenesisAsStandard")
+        .require_label("op:Drop")
+        .require_label("op:ServeFor")
+        .require_label("op:Duplicate")
+        .require_label("op:SelfLoop")
+        .require_label("class:cache-history")
+        .require_label("history:accept-with-warm-cache")
+        .require_label("ref:valid")
+        .require_label("ref:invalid")
+        .require_label("world:constant")
+        .require_label("world:rotating");
+    let t = check.tier;
+    let known: Vec<String> = [KEY_FOLLOWING_EPOCH, KEY_CACHE_POISON].iter().filter(|k| check.has_open_known(k)).map(|k| k.to_string()).collect();
+    let pool: Vec<ChainSpec> = if check.is_replay() { vec![vcore::sample_one(&chain_strategy(2), 1)] } else { chain_pool(check.seed, t.pick(150, 5000) as usize, 6, check.threads) };
+    if pool.is_empty() {
+        check.inconclusive("no honest chain could be built".into());
+        return check.finish();
+    }
+    {
+        let pool = pool.clone();
+        check.section("tampered-provider", move || case_strategy(pool.clone()), t.pick(1800, 60_000), |c: &Case| case_fn(c, &known));
+    }
+    {
+        let pool = pool.clone();
+        check.section("client-cache-history", move || hist_strategy(pool.clone()), t.pick(600, 20_000), |c: &HistCase| hist_case(c, &known));
+    }
+    if check.label_count("honest-rejected") > 0 {
+        check.inconclusive("an untampered honest chain was rejected: the harness' chain builder is wrong".into());
+    }
+    check.witness(KEY_FOLLOWING_EPOCH, "a link to a certificate of the FOLLOWING epoch is accepted (constant signer set)", witness_following_epoch);
+    check.witness(KEY_CACHE_POISON, "with the verifier cache, a fork whose key the honest parent never committed to is accepted", witness_cache_poison);
+    let _ = mix(0, 0);
     check.finish()
 }
